@@ -604,7 +604,7 @@ def base_env(rng, peer):
         "REQUEST_METHOD": "GET", "SERVER_PORT": rng.choice(["8080", "80", "443"]),
         "SERVER_NAME": rng.choice(["waitress.invalid", "localhost"]),
         "SERVER_PROTOCOL": "HTTP/1.1", "SCRIPT_NAME": "", "PATH_INFO": "/p",
-        "QUERY_STRING": "", "wsgi.url_scheme": rng.choice(["http", "http", "https"]),
+        "QUERY_STRING": "", "wsgi.url_scheme": rng.choice(["http", "http", "https", "https", "ws"]),
     }
     if rng.random() < 0.7:
         env["HTTP_HOST"] = rng.choice(["front.example", "front.example:8080"])
@@ -998,6 +998,11 @@ def replay_common(data):
         v, d, kf = c16_spec_eval(Spec(), env, cfg)
         print("config=%s headers=%r\n %s: %s" % (data["config"], data.get("proxy_headers"), v, d))
         return 0 if v == "pass" else 1
+    if kind == "prune":
+        env2 = env_from_json(data["environ2_hex"])
+        ap, fails = prune_eval(env, env2, cfg)
+        print("config=%s headers=%r / %r\n %s" % (data["config"], data.get("proxy_headers"), {k: env2[k] for k in PROXY_KEYS if k in env2}, fails or "holds now"))
+        return 1 if fails else 0
     if kind == "kinds":
         nv = data.get("new_value_hex")
         fails = kinds_eval(env, cfg, data["key"], None if nv is None else unhx(nv))
@@ -1005,3 +1010,49 @@ def replay_common(data):
         return 1 if fails else 0
     print("unknown replay kind %r" % kind)
     return 1
+
+
+LEFT_FILLER = {
+    "HTTP_X_FORWARDED_FOR": ["10.99.%d.1", '"10.99.%d.2:9"', "[2001:db8:99::%d]"],
+    "HTTP_X_FORWARDED_HOST": ["left%d.example", '"left%d.example:99"'],
+    "HTTP_FORWARDED": ["for=10.99.%d.1;host=left%d.example;proto=http", 'for="[2001:db8:99::%d]:1";by=left%d'],
+}
+
+
+def prune_variant(rng, env, cfg, key):
+    """another request whose header `key` has the same last k elements and
+    different (well-formed) elements to the left; None if there is nothing to vary"""
+    raw = env.get(key)
+    if raw is None or cfg.count < 1:
+        return None
+    els = raw.split(",")
+    i = len(els) - min(cfg.count, len(els))
+    nleft = rng.choice([0, 1, 2, 3])
+    if i == 0 and nleft == 0:
+        return None
+    left = []
+    for _ in range(nleft):
+        t = rng.choice(LEFT_FILLER[key])
+        n = rng.randint(1, 200)
+        left.append(t % ((n,) * t.count("%d")))
+    if left == els[:i]:
+        return None
+    # when fewer than k elements exist any new element on the left would enter the suffix
+    if len(els) < cfg.count and nleft:
+        return None
+    e2 = dict(env)
+    e2[key] = ",".join(left + els[i:])
+    if e2[key] == raw or (key == "HTTP_FORWARDED" and not (raw and e2[key])):
+        return None
+    return e2
+
+
+def prune_eval(env, env2, cfg):
+    """both accepted -> the application sees the same environ"""
+    r1 = real_middleware(env, cfg)
+    r2 = real_middleware(env2, cfg)
+    if r1[0] != "ok" or r2[0] != "ok":
+        return None, []      # not applicable (one of them refused)
+    a, b = r1[1], r2[1]
+    fails = ["%s differs: %r vs %r" % (k, a.get(k), b.get(k)) for k in sorted(set(a) | set(b)) if a.get(k) != b.get(k)]
+    return True, fails
